@@ -20,6 +20,7 @@ def tables():
 
 def jet_catalog():
     t = tables()
+    progen.ProgGen.BUILTIN_ALIASES = [(n, progen.sx_to_ty(tsx)) for (n, tsx) in t.get("aliases", []) if tsx is not None]
     known = set(int(x) for x in parse_sx(model("core", ["(knownjets)"])[0]))
     rows = []
     for r in t["jets"]:
